@@ -37,6 +37,9 @@ def build():
       posargs=SeqVar, namedargs=DictSV, starargs=OptVar, starstarargs=OptVar))
   T.bind_obj(FB_PY, 'SignedFunction', collections.OrderedDict(
       signature=('obj', SIG_PY, 'Signature'), ctx=Ctx))
+  T.bind_obj(IF_PY, 'CodeStub', collections.OrderedDict(varnames=SeqStr, argcount=S.INT))
+  T.bind_obj(IF_PY, 'InterpreterFunction', collections.OrderedDict(
+      signature=('obj', SIG_PY, 'Signature'), ctx=Ctx, code=('obj', IF_PY, 'CodeStub'), nonstararg_count=S.INT))
   T.runtime_class = {(SIG_PY, 'Signature'): [(FN_PY, 'Signature')]}   # Signature objects are abstract.function.Signature instances
   T.inline.add((SIG_PY, 'Signature.posonly_params'))
   T.inline.add((FB_PY, 'SignedFunction.get_nondefault_params'))
@@ -184,8 +187,31 @@ def build():
       'precondition: args.starargs is None and args.starstarargs is None (call shapes of the property; Args.simplify runs before)',
       'precondition: has_visible_namedarg(...) is True (every named argument is visible at the call node)',
       'precondition: the signature is well formed (distinct parameter names, posonly_count <= len(param_names), defaults only for parameters)',
-      'SignedFunction instance only: argcount(node) == len(signature.param_names); InterpreterFunction overrides are listed as unverified',
+      'two instances of _map_args: self a SignedFunction (argcount = len(param_names), base get_nondefault_params) and self an InterpreterFunction '
+      '(argcount and get_nondefault_params overridden; precondition: the code object lists the parameter names the signature was built from -- '
+      '_build_signature is unverified surround)',
   ]
+  # InterpreterFunction: the function object of a `def`.  Its code object lists the parameter names; the signature is built
+  # from it (_build_signature: unverified), so the two agree:
+  CODE_MATCHES_SIG = [
+      'self.code.argcount == len(self.signature.param_names)',
+      'self.nonstararg_count == self.code.argcount + len(self.signature.kwonly_params)',
+      'len(self.code.varnames) >= self.nonstararg_count',
+      'all(self.code.varnames[k] == self.signature.param_names[k] for k in range(self.code.argcount))',
+      # kwonly_params is built from a set: same names, any order
+      'all(self.code.varnames[k] in self.signature.kwonly_params for k in range(self.code.argcount, self.nonstararg_count))',
+      'all(any(self.code.varnames[k] == y for k in range(self.code.argcount, self.nonstararg_count)) for y in self.signature.kwonly_params)',
+  ]
+  PairSB = S.Tup(S.STR, S.BOOL)
+  T.add(Contract(
+      IF_PY, 'InterpreterFunction.get_nondefault_params', collections.OrderedDict(self=('obj', IF_PY, 'InterpreterFunction')),
+      requires=['0 <= self.code.argcount', 'self.code.argcount <= self.nonstararg_count', 'self.nonstararg_count <= len(self.code.varnames)'],
+      ensures=['len(result) == self.nonstararg_count',
+               # every non-star parameter once, in declaration order, flagged keyword-only iff it comes after the positionals
+               'all(result[k][0] == self.code.varnames[k] and result[k][1] == (k >= self.code.argcount) for k in range(len(result)))'],
+      loops={0: Loop(['len(yielded) == i',
+                      'all(yielded[k][0] == self.code.varnames[k] and yielded[k][1] == (k >= self.code.argcount) for k in range(i))'], index='i')},
+      result=S.Seq(PairSB)))
   self_obj = ('obj', 'SignedFunction')
   T.add(Contract(
       FB_PY, 'SignedFunction._map_args',
@@ -230,14 +256,63 @@ def build():
       },
       result=DictSV,
       ghost={'callargs': DictSV, 'kws': DictSV, 'posargs': SeqVar, 'positional': DictSV, 'posonly_names': SetStr}))
+  self_obj = ('obj', IF_PY, 'InterpreterFunction')
+  T.add(Contract(
+      FB_PY, 'SignedFunction._map_args',
+      collections.OrderedDict(self=self_obj, node=Node, args=('obj', FN_PY, 'Args')),
+      instance={'self': 'InterpreterFunction'},
+      requires=['wf_sig(self.signature)', 'args.starargs is None', 'args.starstarargs is None'] + CODE_MATCHES_SIG,
+      raises={'WrongArgCount': 'not rule1(self.signature, args)',
+              'DuplicateKeyword': 'not rule2(self.signature, args)',
+              'WrongKeywordArgs': 'not rule3(self.signature, args)',
+              'MissingParameter': 'not (rule4(self.signature, args) and rule5(self.signature, args))'},
+      asserts={
+          'posargs = [': ['len(posargs) == len(args.posargs)',
+                          'all(posargs[k] == copyv(args.posargs[k]) for k in range(len(posargs)))'],
+          'kws = {': ['all((y in kws) == (y in args.namedargs) for y in every("Str"))',
+                      'all(implies(y in kws, kws[y] == copyv(args.namedargs[y])) for y in every("Str"))'],
+          'callargs = {': ['all((y in callargs) == (y in sig.defaults) for y in every("Str"))',
+                           'all(implies(y in callargs, callargs[y] == dflt(sig.defaults[y])) for y in every("Str"))'],
+          'positional = dict(': [
+              'all((y in positional) == any(sig.param_names[k] == y for k in range(min(len(posargs), len(sig.param_names))))'
+              ' for y in every("Str"))',
+              'all(positional[sig.param_names[k]] == posargs[k] for k in range(min(len(posargs), len(sig.param_names))))'],
+          'callargs.update(positional)': [
+              'all((y in callargs) == (y in sig.defaults or y in positional) for y in every("Str"))',
+              'all(implies(y in positional, callargs[y] == positional[y]) for y in every("Str"))',
+              'all(implies(y in sig.defaults and y not in positional, callargs[y] == dflt(sig.defaults[y])) for y in every("Str"))'],
+          'callargs.update({': [
+              'all((y in callargs) == (y in sig.defaults or y in positional or (y in kws and y not in posonly_names))'
+              ' for y in every("Str"))',
+              'all(implies(y in kws and y not in posonly_names, callargs[y] == kws[y]) for y in every("Str"))',
+              'all(implies(y in positional and not (y in kws and y not in posonly_names), callargs[y] == positional[y])'
+              ' for y in every("Str"))',
+              'all(implies(y in sig.defaults and y not in positional and not (y in kws and y not in posonly_names),'
+              ' callargs[y] == dflt(sig.defaults[y])) for y in every("Str"))'],
+          'posonly_names = set(': [
+              'all((y in posonly_names) == any(sig.param_names[k] == y for k in range(sig.posonly_count)) for y in every("Str"))'],
+      },
+      ensures=['bound_value(self.signature, args, result)'],
+      loops={
+          0: Loop(['all(implies(any(order[k] == y for k in range(i)), y not in kws) for y in every("Str"))'],
+                  index='i', seq='order'),
+          1: Loop(['all(chained[k][0] in callargs for k in range(j))',
+                   'same(callargs, entry(1, callargs))'], index='j', seq='chained'),
+      },
+      result=DictSV,
+      ghost={'callargs': DictSV, 'kws': DictSV, 'posargs': SeqVar, 'positional': DictSV, 'posonly_names': SetStr}))
   return T
 
 
-SURROUND = ['InterpreterFunction.get_nondefault_params/argcount overrides (generator; same contract expected)',
+SURROUND = ['InterpreterFunction._build_signature (signature built from the code object)',
             'how the VM builds Args and Signature from bytecode; Args.simplify', 'InterpreterFunction.call/_find_matching_sig (overload choice)',
             'PyTDFunction binding (_pytd_function.py)', 'error-to-log mapping (errors.py)', 'function.has_visible_namedarg']
 NATIVE_IN_QUICK = True
 MUTANTS = [
+    dict(name='if_nondefault_skips_last', file=IF_PY, old="    for i in range(self.nonstararg_count):\n      yield self.code.varnames[i], i >= self.code.argcount\n", new="    for i in range(self.nonstararg_count - 1):\n      yield self.code.varnames[i], i >= self.code.argcount\n"),
+    dict(name='if_kwonly_flag_off_by_one', file=IF_PY, old="      yield self.code.varnames[i], i >= self.code.argcount\n", new="      yield self.code.varnames[i], i > self.code.argcount\n"),
+    dict(name='if_argcount_includes_kwonly', file=IF_PY, old="  def argcount(self, _) -> int:\n    return self.code.argcount\n", new="  def argcount(self, _) -> int:\n    return self.nonstararg_count\n"),
+
     dict(name='update_order_swapped', file=FB_PY,
          old="    callargs.update(positional)\n", new=""),
     dict(name='posonly_not_excluded_from_dup', file=FB_PY,
